@@ -125,7 +125,9 @@ func TestC02Streams(t *testing.T) {
 	rec := obs.NewRecorder("C02", "streams", "rapid: stream models from the reference multiplexer: 1..8 PIDs (PES PIDs, PAT, PMT PIDs listed by the PAT, NIT/SDT/EIT/TOT on their PIDs), 1..4 units per PID, PES with exact and zero PES_packet_length and 0..1200 payload bytes, PSI units of 1..3 sections over 1..6 packets with pointer_field 0..20, every packet's share drawn freely (1-byte first/last chunks, stuffing in any packet), 0xFF padding or exact fit, optional adaptation fields, order-preserving random interleaving with bursts, null/CAT/adaptation-only packets sprinkled in; oracle: per PID the delivered sequence equals the model (PES payload and header, every table section once, FirstPacket), no error, everything delivered before ErrNoMorePackets, all bytes consumed; a PAT/PMT unit's first section is returned by the call that has consumed exactly up to the unit's final packet and further sections cost no read; non-trivial = a unit over >= 3 packets, a multi-section unit and >= 3 PIDs; distinct by stream bytes")
 	defer rec.Flush()
 	rapid.Check(t, func(t *rapid.T) {
-		m := drawStream(t, defaultStreamOpts())
+		so := defaultStreamOpts()
+		so.relaxedSI = true
+		m := drawStream(t, so)
 		if v := c02Run(m); v != "" {
 			t.Fatalf("%s\nstream: %s\norder: %s", v, m.describe(), m.order())
 		}
@@ -140,7 +142,7 @@ func TestC02Streams(t *testing.T) {
 
 // TestC02Splits moves one split point through every position of one unit of each kind.
 func TestC02Splits(t *testing.T) {
-	rec := obs.NewRecorder("C02", "splits", "deterministic sweep: for a PES unit (bounded and unbounded length) and for PAT, PMT (2 sections), SDT and EIT units, every position of a single split point (two packets: k bytes + rest, k = 1..len-1 within the stream preconditions) and every uniform chunk size 1..184, followed by a second unit on the same PID; distinct by construction")
+	rec := obs.NewRecorder("C02", "splits", "deterministic sweep: for a PES unit (bounded and unbounded length) and for PAT, PMT (2 sections), SDT and SDT (2 sections + a foreign section, cuts from the pointer_field alone, at section ends) units, every position of a single split point (two packets: k bytes + rest, k = 1..len-1 within the stream preconditions) and every uniform chunk size 1..184, followed by a second unit on the same PID; distinct by construction")
 	defer rec.Flush()
 	pts := uint64(0x1ffffffff)
 	payload := make([]byte, 230)
@@ -281,8 +283,27 @@ func TestC02Splits(t *testing.T) {
 		}
 		return ""
 	})
+	// two SDT sections and a foreign (BAT) section between them, every cut from "pointer_field alone": units on the SI
+	// PIDs are delimited by payload_unit_start_indicator only, so cuts at section ends must not lose the rest
+	sdtA := &ref.Section{TableID: 0x42, CurrentNext: true, Private: true, SDT: &astits.SDTData{TransportStreamID: 7, OriginalNetworkID: 8, Services: sdt.SDT.Services[:3]}}
+	sdtB := &ref.Section{TableID: 0x46, CurrentNext: true, Private: true, SDT: &astits.SDTData{TransportStreamID: 9, OriginalNetworkID: 10, Services: sdt.SDT.Services[:14]}}
+	run("SDT(2 sections + BAT)", 0x11, ref.PSIUnit(2, 0xff, sdtA.Encode(), ref.ForeignSection(0x4a, true, true, []byte{1, 2, 3, 4, 5, 6, 7}), sdtB.Encode()), 1, nil, false, func(items []*astits.DemuxerData) string {
+		if len(items) != 4 {
+			return fmt.Sprintf("%d items, want 4", len(items))
+		}
+		for i, it := range items {
+			w := sdtA.SDT
+			if i%2 == 1 {
+				w = sdtB.SDT
+			}
+			if obs.Canon(it.SDT) != obs.Canon(w) {
+				return fmt.Sprintf("item %d differs", i)
+			}
+		}
+		return ""
+	})
 	rec.Enumerated(total)
 	rec.SetExhaustive(true)
-	rec.Sample(map[string]interface{}{"units": "PES(230B payload, bounded+unbounded), PAT(60 programs), PMT(2 sections), SDT(30 services)", "packetisations": total})
+	rec.Sample(map[string]interface{}{"units": "PES(230B payload, bounded+unbounded), PAT(60 programs), PMT(2 sections), SDT(30 services), SDT(2 sections + foreign section, cuts from 1 byte)", "packetisations": total})
 	_ = gen.KindPAT
 }
